@@ -33,6 +33,14 @@ def to_py(t, v):
     raise AssertionError(t)
 
 
+def shuffle_keys(py, rng):
+    """the same value with its dict keys inserted in another order: a caller may build the dict in any order, the wire order is the declared one"""
+    if isinstance(py, dict):
+        ks = list(py); rng.shuffle(ks); return {k: shuffle_keys(py[k], rng) for k in ks}
+    if isinstance(py, list): return [shuffle_keys(x, rng) for x in py]
+    return py
+
+
 def has_nan(t, v):
     k = t[0]
     if v is None: return False
@@ -102,10 +110,17 @@ def run(ctx):
             cases.append((t, v, rng.choice([1, 1, 2])))
         # corpus: the three witnesses of the refuted examples
         cases[:0] = [(('dict', (('a', ('u', 1)),), True), None, 1), (('string',), ('s', 'é'.encode()), 1), (('array', ('u', 1), 3), [1, 2], 1)]
+        # boundary corpus: every length at which the packed-length format changes shape or stops being representable, for text and bytes,
+        # bare and nested; the declared field order against the order of the Python dict handed in is covered by to_py below
+        for ln in (254, 255, 256, 65535, 65536, 65537, 70001, 131072):
+            for leaf, mk in ((('string',), lambda n: ('s', b'a' * n)), (('blob',), lambda n: ('b', bytes((i * 7) & 255 for i in range(n))))):
+                cases.append((leaf, mk(ln), 1))
+                if ln in (255, 65536): cases.append((('dict', (('k', ('u', 1)), ('v', leaf)), False), {'k': 7, 'v': mk(ln)}, 1)); cases.append((('array', leaf, None), [mk(3), mk(ln)], 1))
         syn = [impl.type_syntax(t) for t, v, h in cases]
         model = modelrun_lines('write', ['%d %s %s' % (h, s, gen_types.enc_of(t, v)) for (t, v, h), s in zip(cases, syn)])
         for (t, v, h), s, m in zip(cases, syn, model):
             lt = lib.make(t); py = to_py(t, v)
+            if rng.random() < 0.5: py = shuffle_keys(py, rng)
             st = io.BytesIO(); tail = b'\xaa\xbb'
             try:
                 lt.write_to_stream(st, py, h); wrote = st.getvalue(); got = 'OK ' + (wrote.hex() or '-')
@@ -136,6 +151,21 @@ def run(ctx):
                               dict(kind='write-read', type=s, hdr=h, value=gen_types.canon_of(t, v)[:400], written=(wrote.hex()[:400] if wrote is not None else got),
                                    read_back=(back[:400] if wrote is not None else None), flags=sorted(flags),
                                    how='DataType.write_to_stream(BytesIO, value, hdr) then create_from_stream on the same bytes + 2 trailing bytes; tell()'))
+        # lengths past 2^24 cannot be carried by the 3-byte packed length at all: refused, or (if ever supported) read back intact - library only,
+        # the model is not run on 16 MB literals
+        for leaf in (('string',), ('blob',)):
+            for ln in (2 ** 24, 2 ** 24 + 3):
+                lt = lib.make(leaf); py = ('a' * ln) if leaf[0] == 'string' else bytes(ln)
+                st = io.BytesIO(); ctx.case((leaf[0], 'len', ln))
+                try: lt.write_to_stream(st, py, 1)
+                except Exception: continue
+                rd = io.BytesIO(st.getvalue())
+                try: back = lt.create_from_stream(rd, 1)
+                except Exception as e: back = e
+                if back != py or rd.tell() != len(st.getvalue()):
+                    ctx.violation(dict(kind='write-read', type=leaf[0], length=ln, written_prefix=st.getvalue()[:8].hex(),
+                                       read_back_length=(len(back) if isinstance(back, (str, bytes)) else repr(back)),
+                                       how='DataType.write_to_stream of a value of that length, then create_from_stream'))
         # argument lists
         from replay_unpack.core.entity_def.entity_description import EntityMethod, MethodArgument
         bad_args = None
